@@ -176,6 +176,10 @@ pub trait Scenario: Sync + Send {
     fn ticks_enabled(&self) -> bool {
         true
     }
+    /// keep resolved futures alive until an explicit Drop (release) action
+    fn retain_completed(&self) -> bool {
+        false
+    }
 }
 
 /// Canonical, harness-visible facts about the world.
@@ -209,7 +213,7 @@ pub fn core_fingerprint(w: &World) -> String {
                 );
             }
             Phase::Done(o) => {
-                let _ = write!(s, "D({})", o.tag());
+                let _ = write!(s, "D({}){}", o.tag(), if c.fut.is_some() { "+fut" } else { "" });
             }
             Phase::Panicked => s.push('X'),
             Phase::Dropped => s.push('d'),
@@ -269,7 +273,7 @@ pub fn enabled_actions<S: Scenario>(scn: &S, w: &World, x: &S::X, h: &[Action]) 
     }
     if scn.drops_enabled() {
         for c in 0..w.callers.len().min(scn.callers()) {
-            if w.callers[c].is_live() {
+            if w.callers[c].is_live() || w.has_retained(c) {
                 v.push(Action::Drop(c as u8));
             }
         }
@@ -315,10 +319,14 @@ pub fn apply_action<S: Scenario>(scn: &S, w: &mut World, x: &mut S::X, a: &Actio
         }
         Action::Drop(c) => {
             let c = *c as usize;
-            if !w.callers[c].is_live() {
-                return Err(format!("Drop({c}) not enabled"));
+            if w.has_retained(c) {
+                w.release_done(c);
+            } else {
+                if !w.callers[c].is_live() {
+                    return Err(format!("Drop({c}) not enabled"));
+                }
+                w.drop_caller(c);
             }
-            w.drop_caller(c);
         }
         Action::Complete(k, o) => {
             let k = *k as usize;
@@ -358,6 +366,7 @@ pub fn unexpected_panics(w: &World, out: &mut Vec<Viol>) {
 pub fn execute<S: Scenario>(scn: &S, h: &[Action], trace: bool, run_epilogue: &dyn Fn(&str) -> bool) -> Exec {
     let mut w = World::new(scn.callers(), scn.grid_ms(), scn.mode(), scn.rng_seed());
     w.trace = trace;
+    w.retain_done = scn.retain_completed();
     let mut x = scn.init(&mut w);
     let mut viols = vec![];
     let mut divergence = None;
@@ -483,6 +492,8 @@ pub fn explore<S: Scenario>(scn: &S, opts: &Opts, rep: &mut Report) -> Explored 
         let stop = AtomicBool::new(false);
         let results: Mutex<Vec<(Child, Exec)>> = Mutex::new(Vec::new());
         let transitions = AtomicUsize::new(0);
+        let rechecks = AtomicUsize::new(0);
+        let diverged: Mutex<Vec<String>> = Mutex::new(Vec::new());
         let nthreads = opts.threads.max(1).min(frontier.len().max(1));
         std::thread::scope(|sc| {
             for _ in 0..nthreads {
@@ -511,7 +522,22 @@ pub fn explore<S: Scenario>(scn: &S, opts: &Opts, rep: &mut Report) -> Explored 
                                 }
                                 !seen.lock().unwrap().contains(&h64(fp))
                             });
-                            transitions.fetch_add(1, Ordering::Relaxed);
+                            let n = transitions.fetch_add(1, Ordering::Relaxed);
+                            // determinism guard: a fixed stride of histories is executed twice
+                            if n % 401 == 7 {
+                                let again = execute(scn, &h, false, &|_| true);
+                                rechecks.fetch_add(1, Ordering::Relaxed);
+                                if again.fingerprint != e.fingerprint || again.enabled != e.enabled || (!e.epilogue_sig.is_empty() && again.epilogue_sig != e.epilogue_sig) {
+                                    let what = if again.fingerprint != e.fingerprint {
+                                        format!("fingerprint {} vs {}", e.fingerprint, again.fingerprint)
+                                    } else if again.enabled != e.enabled {
+                                        "enabled actions".to_string()
+                                    } else {
+                                        format!("epilogue {} vs {}", e.epilogue_sig, again.epilogue_sig)
+                                    };
+                                    diverged.lock().unwrap().push(format!("{} [{}]", enc_hist(&h), what));
+                                }
+                            }
                             let fp = h64(&e.fingerprint);
                             let child = Child { hist: h, fp, enabled: e.enabled.clone() };
                             local.push((child, e));
@@ -523,6 +549,13 @@ pub fn explore<S: Scenario>(scn: &S, opts: &Opts, rep: &mut Report) -> Explored 
         });
         let mut res = results.into_inner().unwrap();
         let t = transitions.load(Ordering::Relaxed) as u64;
+        rep.replay_checks += rechecks.load(Ordering::Relaxed) as u64;
+        for d in diverged.into_inner().unwrap() {
+            rep.replay_divergences += 1;
+            if rep.machinery.len() < 5 {
+                rep.machinery.push(format!("{label}: two executions of history {d} differ (uncaptured nondeterminism)"));
+            }
+        }
         ex.transitions += t;
         ex.executions += t;
         if stop.load(Ordering::Relaxed) {
